@@ -357,8 +357,24 @@ def check_views(ctx):
             seq = {1: [], 2: ["backwall"], 3: ["backwall", "frontwall"]}
             head = ["probe", "frontwall"] if code == "i" else ["probe"]
             ok = ok and walls(v.tx_path) == head + seq[len(x)] + ["grid"] and walls(v.rx_path) == head + seq[len(y)] + ["grid"]
-            if not ok:
-                ctx.violate(f"view {name} ({code}) is mis-wired: tx modes {txm}, rx modes {rxm}, scat key {v.scat_key()}", {**cj, "view": name}, {"kind": "wiring"})
+            # every interface of both paths: point set, kind, transmission/reflection flag, material reflected against, normal sides
+            un = code[3:4] == "1"
+            spec = {"probe": "probe:N:N:N:N:T", "grid": "grid:N:N:N:T:N"}
+            if code == "i":
+                chain = ["frontwall:fluid_solid:transmission:N:F:T", "backwall:solid_fluid:reflection:couplant:F:F", "frontwall:solid_fluid:reflection:couplant:T:T"]
+            else:
+                chain = ["backwall:solid_fluid:reflection:under:F:F" if un else "backwall:N:N:N:F:F", "frontwall:N:N:N:T:T"]
+            for p_, w_ in ((v.tx_path, x), (v.rx_path, y)):
+                nint = len(w_) if code == "i" else len(w_) - 1
+                want_if = [spec["probe"]] + chain[:nint] + [spec["grid"]]
+                got_if = [iface_str(i, refs) for i in p_.interfaces]
+                if ok and got_if != want_if:
+                    ok = False
+                    ctx.violate(f"view {name} ({code}): path {p_.name} has interfaces {got_if}, documented {want_if}", {**cj, "view": name}, {"kind": "wiring_interfaces"})
+                    break
+            else:
+                if not ok:
+                    ctx.violate(f"view {name} ({code}) is mis-wired: tx modes {txm}, rx modes {rxm}, scat key {v.scat_key()}", {**cj, "view": name}, {"kind": "wiring"})
 
 
 def check_views_from_paths(ctx):
